@@ -901,7 +901,12 @@ def rule_loop_scope(run):
     run.end()
 
 
-RULES = [rule_tables, rule_dispatch, rule_compare_chain, rule_boolop, rule_fail_closed, rule_bind, rule_env, rule_builtins, rule_siblings, rule_unpack, rule_anyall, rule_purge, rule_defaults, rule_comprehension, rule_unreachable, rule_getattr, rule_hasattr, rule_returns_always, rule_default_names, rule_loop_scope]
+def rule_bound_kept(run):
+    from . import c03
+    c03.rule_bound_kept(run)   # `if f():` with a constant result still executes f (its run-time assignments are emitted)
+
+
+RULES = [rule_tables, rule_dispatch, rule_compare_chain, rule_boolop, rule_fail_closed, rule_bind, rule_env, rule_builtins, rule_siblings, rule_unpack, rule_anyall, rule_purge, rule_defaults, rule_comprehension, rule_unreachable, rule_getattr, rule_hasattr, rule_returns_always, rule_default_names, rule_loop_scope, rule_bound_kept]
 LEVEL = "other"
 EXPLANATION = (
     "The tracer re-implements CPython's evaluation rules by hand; decided here, for all programs, are the parts of "
